@@ -41,6 +41,7 @@ type OpFeatures struct {
 	AbstractFragMeta bool // id / __typename selected inside a concrete fragment below an abstract field
 	FragTwice        bool // one named fragment spread twice in the same selection set
 	FragDirectives   bool // @skip/@include on an inline fragment
+	FragReuse        bool // a named fragment spread in several places of the operation
 }
 
 func DefaultOpFeatures(t *tape.Tape) OpFeatures {
@@ -61,10 +62,15 @@ func DefaultOpFeatures(t *tape.Tape) OpFeatures {
 		AliasCollide:    t.Bool(1, 4),
 		IDAlias:         t.Bool(1, 2),
 		FragTwice:       t.Bool(1, 2),
+		FragReuse:       t.Bool(1, 2),
 		VarInInput:      t.Bool(1, 3),
 		VarStricter:     t.Bool(1, 3),
 		MultiOp:         t.Bool(1, 5),
 	}
+}
+
+type fragRec struct {
+	name, typ, key string
 }
 
 type varDecl struct {
@@ -101,6 +107,9 @@ type og struct {
 	noNull        bool
 	underAbstract int
 	rootAlias     string
+	fragRecs      []fragRec
+	lastKey       string
+	reuses        int
 }
 
 func (g *og) mark(s string) { g.used[s]++ }
@@ -366,6 +375,7 @@ func (g *og) selSetInto(typ *ast.Definition, depth int, used map[string]bool) st
 				g.mark("named-fragment")
 				fn := g.next("F")
 				g.frags = append(g.frags, "fragment "+fn+" on "+typ.Name+" { "+s+" }")
+				g.fragRecs = append(g.fragRecs, fragRec{name: fn, typ: typ.Name, key: g.lastKey})
 				s = "..." + fn
 				if g.f.FragTwice && g.t.Bool(1, 4) {
 					g.mark("fragment-spread-twice")
@@ -389,6 +399,18 @@ func (g *og) selSetInto(typ *ast.Definition, depth int, used map[string]bool) st
 					inner := g.selSetInto(pt, depth, used)
 					parts = append(parts, "... on "+pt.Name+" "+inner)
 				}
+			}
+		}
+	}
+	// a named fragment defined elsewhere in the operation, spread again here
+	if g.f.FragReuse && g.reuses < 3 && !abstract && g.underAbstract == 0 && !(hasID && !g.f.IDWithFragments) {
+		for _, fr := range g.fragRecs {
+			if fr.typ == typ.Name && !used[fr.key] && g.t.Bool(1, 2) {
+				used[fr.key] = true
+				parts = append(parts, "..."+fr.name)
+				g.mark("fragment-reuse")
+				g.reuses++
+				break
 			}
 		}
 	}
@@ -433,6 +455,7 @@ func (g *og) field(parent *ast.Definition, fd *ast.FieldDefinition, depth int, u
 		key = alias
 	}
 	used[key] = true
+	g.lastKey = key
 	s := ""
 	if alias != "" {
 		s = alias + ": "
@@ -461,6 +484,8 @@ func (g *og) field(parent *ast.Definition, fd *ast.FieldDefinition, depth int, u
 	if td := g.schema.Types[fd.Type.Name()]; isComposite(td) {
 		s += " " + g.selSet(td, depth+1)
 	}
+	// (again, after the recursion) the response key of the field just generated
+	g.lastKey = key
 	return s
 }
 
